@@ -209,7 +209,9 @@ impl<'c> Exec<'c> {
                         let path = if via == CloseVia::Sqe { ClosePath::SqeIndex } else { ClosePath::FilesUpdate };
                         self.note_close(desc, path, what);
                     } else {
-                        if (0..=2).contains(&fd) {
+                        // (Number 0 can be a descriptor the kernel handed out
+                        // in this case: then it is an ordinary owned one.)
+                        if (0..=2).contains(&fd) && !self.ledger.contains_key(&Desc::Regular(fd)) {
                             self.fail("stdio-closed", format!("{what}: IORING_OP_CLOSE submitted for standard stream descriptor {fd}"));
                             continue;
                         }
@@ -222,7 +224,7 @@ impl<'c> Exec<'c> {
         let log = shims::log_snapshot();
         for e in &log[self.shim_seen.min(log.len())..] {
             if let ShimEvent::Close { fd, ret } = e {
-                if (0..=2).contains(fd) {
+                if (0..=2).contains(fd) && !self.ledger.contains_key(&Desc::Regular(*fd)) {
                     self.fail("stdio-closed", format!("{what}: close(2) called on standard stream descriptor {fd}"));
                     continue;
                 }
@@ -352,7 +354,20 @@ impl<'c> Exec<'c> {
                     }
                 }
                 Create::New => {
-                    let raw = sim::sim().issue_fd();
+                    // One in four gets the lowest number there is (a process
+                    // without standard input), if this case has no handle for
+                    // that stream.
+                    let low = on % 4 == 0 && !self.fds.iter().any(|f| f.stdio.is_some() && f.desc == Desc::Regular(0)) && !self.ledger.contains_key(&Desc::Regular(0));
+                    let raw = {
+                        let mut s = sim::sim();
+                        match if low { s.issue_fd_low() } else { None } {
+                            Some(n) => {
+                                self.classes.push("descriptor-number-0");
+                                n
+                            }
+                            None => s.issue_fd(),
+                        }
+                    };
                     let fd = AsyncFd::new(unsafe { OwnedFd::from_raw_fd(raw) }, sq);
                     let desc = Desc::Regular(raw);
                     self.ledger.insert(desc, Entry { closes: vec![], wrapped: None, abandoned: false, released: false });
@@ -361,6 +376,7 @@ impl<'c> Exec<'c> {
                     return;
                 }
                 Create::Stdio => {
+                    let on = if on % 3 == 0 && self.ledger.contains_key(&Desc::Regular(0)) { on + 1 } else { on };
                     let stdio = match on % 3 {
                         0 => Stdio::In(a10::io::stdin(sq)),
                         1 => Stdio::Out(a10::io::stdout(sq)),
@@ -568,7 +584,16 @@ impl<'c> Exec<'c> {
                         }
                     }
                 } else {
-                    Desc::Regular(s.issue_fd())
+                    // (`more` on a single-shot operation: the kernel hands out
+                    // number 0, if the case does not use it yet.)
+                    let low = more && self.ops[i].what != Create::MultishotAccept && !self.fds.iter().any(|f| f.stdio.is_some() && f.desc == Desc::Regular(0)) && !self.ledger.contains_key(&Desc::Regular(0));
+                    match if low { s.issue_fd_low() } else { None } {
+                        Some(n) => {
+                            self.classes.push("descriptor-number-0");
+                            Desc::Regular(n)
+                        }
+                        None => Desc::Regular(s.issue_fd()),
+                    }
                 };
                 new_entry(&mut self.ledger, desc);
                 let res = match desc {
@@ -940,7 +965,9 @@ fn run_case(case: &Case, ctx: &mut Ctx) {
         // Cross-check with the process descriptor table.
         for (d, e) in &exec.ledger {
             if let Desc::Regular(n) = d {
-                let open = unsafe { libc::fcntl(*n, libc::F_GETFD) } != -1;
+                // (Number 0 is taken by the worker's own descriptor again as
+                // soon as the issued one is closed: ask the simulator.)
+                let open = if *n == 0 { sim::sim().issued_fds.get(&0).copied().unwrap_or(false) } else { (unsafe { libc::fcntl(*n, libc::F_GETFD) }) != -1 };
                 if open != e.closes.is_empty() && !exec.stop {
                     let msg = format!("descriptor {n}: ledger says {} closes but fcntl(F_GETFD) says {}", e.closes.len(), if open { "open" } else { "closed" });
                     exec.ctx.infra(msg);
